@@ -245,6 +245,8 @@ var ErrFieldNames = map[byte]string{'S': "sev", 'V': "sevv", 'C': "code", 'M': "
 func Decode(m Msg) M {
 	c := &cur{b: m.Body, ok: true}
 	r := M{"t": string([]byte{m.Type})}
+	decl, items := -1, -1 // declared count / items actually present (when the type has a count)
+	known := true
 	switch m.Type {
 	case 'R':
 		r["code"] = c.i32()
@@ -283,6 +285,7 @@ func Decode(m Msg) M {
 		r["names"] = names
 		r["oids"] = oids
 		r["fmts"] = fmts
+		decl, items = n, len(names)
 	case 'D':
 		n := c.u16()
 		r["n"] = n
@@ -310,6 +313,7 @@ func Decode(m Msg) M {
 		}
 		r["cells"] = cells
 		r["_raw"] = raws
+		decl, items = n, len(cells)
 	case 'C':
 		r["tag"] = c.str()
 	case 'I', '1', '2', '3', 'n', 's', 'c':
@@ -350,6 +354,8 @@ func Decode(m Msg) M {
 		}
 		r["fields"] = fields
 		r["dup"] = dup
+		r["term"] = terminated
+		r["mand"] = seen['S'] && seen['C'] && seen['M']
 	case 't':
 		n := c.u16()
 		r["n"] = n
@@ -364,6 +370,7 @@ func Decode(m Msg) M {
 			c.ok = false
 		}
 		r["oids"] = oids
+		decl, items = n, len(oids)
 	case 'G', 'H', 'W':
 		r["fmt"] = int(c.u8())
 		n := c.u16()
@@ -379,6 +386,7 @@ func Decode(m Msg) M {
 			c.ok = false
 		}
 		r["fmts"] = fmts
+		decl, items = n, len(fmts)
 	case 'K':
 		c.i32()
 		c.i32()
@@ -386,8 +394,15 @@ func Decode(m Msg) M {
 		c.b = nil
 	default:
 		c.ok = false
+		known = false
 		r["unknown"] = true
 	}
+	// structural facts for the grammar check done in TLA+ (PgOps.GrammarOK)
+	r["known"] = known
+	r["decl"] = decl
+	r["items"] = items
+	r["parsed"] = c.ok
+	r["trail"] = len(c.b)
 	trailing := len(c.b)
 	r["wf"] = c.ok && trailing == 0
 	if trailing != 0 {
